@@ -183,7 +183,8 @@ Align(t, how, width, ch, ov) ==
               [] how = "center" -> PadRight(PadLeft(t1, ex \div 2, ch), ex - (ex \div 2), ch)
               [] OTHER          -> PadLeft(t1, ex, ch)
 
-RightCrop(t, n) == [t EXCEPT !.chars = SubSeq(@, 1, Max(0, Len(@) - n))]
+\* right_crop(n) is s[:len(s)-n] on an ordinary string: nothing is removed for n <= 0 (a negative amount cannot add characters)
+RightCrop(t, n) == [t EXCEPT !.chars = SubSeq(@, 1, Min(Len(@), Max(0, Len(@) - n)))]
 SetLength(t, n) == IF Len(t.chars) < n THEN PadRight(t, n - Len(t.chars), <<Space, 1>>)
                    ELSE RightCrop(t, Len(t.chars) - n)
 
